@@ -233,6 +233,144 @@ Proof.
   - intros H; injection H as <-. exists b. split; [reflexivity | congruence].
 Qed.
 
+(* ---- the same with a stop revision (pull -r) ----------------------------------------- *)
+
+Lemma proceed_form g tgt src stop s :
+  proceed g tgt false src stop s =
+  match stop_revno g tgt src stop s with
+  | None => Err GhostRevisionsHaveNoRevno
+  | Some n => Ok (mkB (Some s) n)
+  end.
+Proof. unfold proceed. destruct (stop_revno g tgt src stop s); reflexivity. Qed.
+
+Lemma urs_closed g tgt src stop : wf_dag g = true ->
+  update_revisions g tgt false src stop false =
+  match eff_stop src stop with
+  | None => Ok tgt
+  | Some s => match tip tgt with
+              | None => proceed g tgt false src stop s
+              | Some t => if is_ancestor g s t then Ok tgt
+                          else if is_ancestor g t s then proceed g tgt false src stop s
+                          else Err DivergedBranches
+              end
+  end.
+Proof.
+  intros W. destruct (eff_stop src stop) as [s|] eqn:Hs.
+  - rewrite (update_shape g W tgt false src stop false s Hs). reflexivity.
+  - unfold update_revisions. rewrite Hs. reflexivity.
+Qed.
+
+(* a successful step: unchanged (the target contains the requested revision) or moved onto it *)
+Lemma urs_ok g tgt src stop b' : wf_dag g = true ->
+  update_revisions g tgt false src stop false = Ok b' ->
+  (b' = tgt /\ leo g (eff_stop src stop) (tip tgt)) \/
+  (tip b' = eff_stop src stop /\ eff_stop src stop <> None /\ leo g (tip tgt) (eff_stop src stop)).
+Proof.
+  intros W. rewrite (urs_closed g tgt src stop W). unfold leo.
+  destruct (eff_stop src stop) as [s|]; [|intros H; injection H as <-; left; split; reflexivity].
+  rewrite proceed_form.
+  destruct (tip tgt) as [t|]; cbn.
+  - destruct (is_ancestor g s t) eqn:E1; [intros H; injection H as <-; left; split; reflexivity|].
+    destruct (is_ancestor g t s) eqn:E2; [|discriminate].
+    destruct (stop_revno g tgt src stop s); [|discriminate].
+    intros H; injection H as <-. right. split; [reflexivity | split; [discriminate | reflexivity]].
+  - destruct (stop_revno g tgt src stop s); [|discriminate].
+    intros H; injection H as <-. right. split; [reflexivity | split; [discriminate | reflexivity]].
+Qed.
+
+(* the target already contains the requested revision: unchanged *)
+Lemma urs_contained g tgt src stop : wf_dag g = true ->
+  leo g (eff_stop src stop) (tip tgt) -> update_revisions g tgt false src stop false = Ok tgt.
+Proof.
+  intros W. rewrite (urs_closed g tgt src stop W). unfold leo.
+  destruct (eff_stop src stop) as [s|]; [|reflexivity].
+  destruct (tip tgt) as [t|]; cbn; [|discriminate]. intros ->. reflexivity.
+Qed.
+
+(* whether a revno can be computed does not depend on the revno recorded for a known tip *)
+Lemma lookup_none_app r k1 k2 : lookup r (k1 ++ k2) = None <-> lookup r k1 = None /\ lookup r k2 = None.
+Proof.
+  induction k1 as [|[k n] k1 IH]; cbn; [tauto|].
+  destruct (k =? r); [|exact IH]. split; [discriminate | intros [H _]; discriminate].
+Qed.
+
+Lemma distance_known_none_congr g k1 k2 :
+  (forall r, lookup r k1 = None <-> lookup r k2 = None) ->
+  forall f r, distance_known_fuel g k1 f r = None <-> distance_known_fuel g k2 f r = None.
+Proof.
+  intros K. induction f as [|f IH]; intros r; cbn [distance_known_fuel]; [tauto|].
+  destruct (lookup r k1) as [n1|] eqn:E1, (lookup r k2) as [n2|] eqn:E2.
+  - split; discriminate.
+  - exfalso. apply K in E2. congruence.
+  - exfalso. apply K in E1. congruence.
+  - destruct (present g r); [|split; reflexivity].
+    destruct (parents g r) as [|p ps]; [split; discriminate|].
+    specialize (IH p).
+    destruct (distance_known_fuel g k1 f p), (distance_known_fuel g k2 f p); cbn; split; intros H;
+      try discriminate; try reflexivity; exfalso; destruct IH as [I1 I2];
+      [specialize (I2 eq_refl) | specialize (I1 eq_refl)]; discriminate.
+Qed.
+
+Lemma known_of_keys (a b : branch) : tip a = tip b -> forall r, lookup r (known_of a) = None <-> lookup r (known_of b) = None.
+Proof.
+  intros E r. unfold known_of. rewrite <- E. destruct (tip a) as [t|]; cbn; [|tauto].
+  destruct (t =? r); [split; discriminate | tauto].
+Qed.
+
+Lemma stop_revno_none_congr g a b src stop s : tip a = tip b ->
+  stop_revno g a src stop s = None <-> stop_revno g b src stop s = None.
+Proof.
+  intros E. unfold stop_revno. destruct stop as [st|]; [|tauto]. unfold distance_known.
+  apply distance_known_none_congr. intros x. rewrite !lookup_none_app.
+  pose proof (known_of_keys a b E x). tauto.
+Qed.
+
+(* the tip a pull step produces depends only on the tips *)
+Lemma urs_tip_congr g a b src stop a' : wf_dag g = true -> tip a = tip b ->
+  update_revisions g a false src stop false = Ok a' ->
+  exists b', update_revisions g b false src stop false = Ok b' /\ tip b' = tip a'.
+Proof.
+  intros W E. rewrite !(urs_closed g _ src stop W). rewrite <- E.
+  destruct (eff_stop src stop) as [s|]; [|intros H; injection H as <-; exists b; split; [reflexivity | congruence]].
+  rewrite !proceed_form.
+  assert (P : forall a', match stop_revno g a src stop s with
+                         | None => Err GhostRevisionsHaveNoRevno | Some n => Ok (mkB (Some s) n) end = Ok a' ->
+              exists b', match stop_revno g b src stop s with
+                         | None => Err GhostRevisionsHaveNoRevno | Some n => Ok (mkB (Some s) n) end = Ok b'
+                         /\ tip b' = tip a').
+  { intros x. pose proof (stop_revno_none_congr g a b src stop s E) as C.
+    destruct (stop_revno g a src stop s) as [n|]; [|discriminate].
+    destruct (stop_revno g b src stop s) as [n'|].
+    - intros H; injection H as <-. eexists. split; reflexivity.
+    - exfalso. destruct C as [_ C]. specialize (C eq_refl). discriminate. }
+  destruct (tip a) as [t|] eqn:Ha.
+  - destruct (is_ancestor g s t).
+    + intros H; injection H as <-. exists b. split; [reflexivity | congruence].
+    + destruct (is_ancestor g t s); [apply P | discriminate].
+  - apply P.
+Qed.
+
+(* the requested revision of a pull is on the source's left-hand history *)
+Lemma In_last {A} (l : list A) d : l <> [] -> In (last l d) l.
+Proof.
+  induction l as [|x l IH]; [contradiction|]. intros _. destruct l as [|y l]; [left; reflexivity|].
+  right. apply IH. discriminate.
+Qed.
+
+Lemma eff_stop_back g sb back : wf_dag g = true ->
+  leo g (eff_stop sb (stop_back g sb back)) (tip sb) /\
+  (tip sb = None -> eff_stop sb (stop_back g sb back) = None).
+Proof.
+  intros W. unfold stop_back, eff_stop. destruct back as [k|]; [|split; [apply leo_refl; exact W | tauto]].
+  destruct (tip sb) as [t|] eqn:Ht; [|split; [reflexivity | tauto]].
+  split; [|discriminate]. unfold leo, is_anc_opt.
+  apply (is_ancestor_spec g _ t W). apply lefthand_reach.
+  destruct (lefthand_head g t) as [l Hl].
+  destruct (Nat.lt_ge_cases k (length (lefthand g t))) as [L|G].
+  - apply nth_In. exact L.
+  - rewrite nth_overflow by exact G. apply In_last. rewrite Hl. discriminate.
+Qed.
+
 (* ---- commit: single-step facts (any state) ------------------------------------ *)
 
 Definition new_branch (s : sys) (ref : branch) : branch := mkB (Some (length (graph s))) (S (revno ref)).
@@ -582,7 +720,7 @@ Qed.
 
 Lemma pull_master_unfold s i c :
   nth_error (cos s) i = Some c -> heavy c = true ->
-  pull s i SMaster =
+  pull s i SMaster None =
   match update_revisions (graph s) (lbranch c) false (mbranch s) None false with
   | Err e => (Fail (BU e), s)
   | Ok l' => let s2 := apply_write s (WLocal i l') in
@@ -599,7 +737,7 @@ Theorem pull_from_master_equalises s i c :
   wf_dag (graph s) = true ->
   nth_error (cos s) i = Some c -> heavy c = true ->
   leo (graph s) (tip (lbranch c)) (tip (mbranch s)) ->
-  exists s' c', pull s i SMaster = (Done, s') /\ mbranch s' = mbranch s /\
+  exists s' c', pull s i SMaster None = (Done, s') /\ mbranch s' = mbranch s /\
     nth_error (cos s') i = Some c' /\ tip (lbranch c') = tip (mbranch s) /\
     (forall j, j <> i -> nth_error (cos s') j = nth_error (cos s) j).
 Proof.
@@ -629,7 +767,7 @@ Qed.
 Theorem pull_from_master_contains s i c s' :
   wf_dag (graph s) = true ->
   nth_error (cos s) i = Some c -> heavy c = true ->
-  pull s i SMaster = (Done, s') ->
+  pull s i SMaster None = (Done, s') ->
   mbranch s' = mbranch s /\
   exists c', nth_error (cos s') i = Some c' /\ leo (graph s) (tip (mbranch s)) (tip (lbranch c')).
 Proof.
@@ -648,26 +786,21 @@ Theorem pull_diverged_refused s i c t m :
   nth_error (cos s) i = Some c -> heavy c = true ->
   tip (lbranch c) = Some t -> tip (mbranch s) = Some m ->
   is_ancestor (graph s) t m = false -> is_ancestor (graph s) m t = false ->
-  pull s i SMaster = (Fail (BU DivergedBranches), s).
+  pull s i SMaster None = (Fail (BU DivergedBranches), s).
 Proof.
   intros W Hc Hh Ht Hm E1 E2. rewrite (pull_master_unfold s i c Hc Hh).
   rewrite (ur_closed _ _ _ W), Hm, Ht, E2, E1. reflexivity.
 Qed.
 
-(* any successful pull keeps an in-step bound checkout in step *)
-Lemma ur_same_tip g a b : wf_dag g = true -> tip a = tip b ->
-  update_revisions g a false b None false = Ok a.
-Proof.
-  intros W E. rewrite (ur_closed g a b W), <- E. destruct (tip a) as [t|]; [|reflexivity].
-  rewrite (is_ancestor_refl g t W). reflexivity.
-Qed.
-
-Lemma pull_in_step_master_source s i c :
+(* any successful pull -- any source, with or without a stop revision -- keeps an
+   in-step bound checkout in step *)
+Lemma pull_in_step_master_source s i c stop :
   wf_dag (graph s) = true ->
   nth_error (cos s) i = Some c -> heavy c = true ->
   tip (lbranch c) = tip (mbranch s) ->
+  leo (graph s) (eff_stop (mbranch s) stop) (tip (mbranch s)) ->
   forall s',
-  match update_revisions (graph s) (lbranch c) false (mbranch s) None false with
+  match update_revisions (graph s) (lbranch c) false (mbranch s) stop false with
   | Err e => (Fail (BU e), s)
   | Ok l' => let s2 := apply_write s (WLocal i l') in
              if branch_eqb l' (lbranch c) then (Done, s2)
@@ -675,33 +808,60 @@ Lemma pull_in_step_master_source s i c :
   end = (Done, s') ->
   exists c', nth_error (cos s') i = Some c' /\ tip (lbranch c') = tip (mbranch s').
 Proof.
-  intros W Hc Hh E s'. rewrite (ur_same_tip _ _ _ W E). cbn zeta.
+  intros W Hc Hh E L s'. rewrite (urs_contained _ _ _ _ W) by (rewrite E; exact L). cbn zeta.
   destruct (branch_eqb (lbranch c) (lbranch c)); intros H; injection H as <-; cbn.
   - eexists. split; [apply nth_upd_same; exact Hc | exact E].
   - eexists. split; [apply nth_upd_same; apply nth_upd_same; exact Hc | exact E].
 Qed.
 
-Theorem pull_keeps_in_step s i c sr s' :
+Theorem pull_keeps_in_step s i c sr back s' :
   wf_dag (graph s) = true ->
   nth_error (cos s) i = Some c -> is_bound c = true ->
   tip (lbranch c) = tip (mbranch s) ->
-  pull s i sr = (Done, s') ->
+  pull s i sr back = (Done, s') ->
   exists c', nth_error (cos s') i = Some c' /\ tip (lbranch c') = tip (mbranch s').
 Proof.
   intros W Hc B E.
   assert (Hh : heavy c = true) by (unfold is_bound in B; apply andb_true_iff in B; tauto).
   unfold pull. rewrite Hc, B. cbn [andb]. unfold wbranch, branch_of. rewrite Hh.
   destruct sr as [|j].
-  - cbn [negb]. apply (pull_in_step_master_source s i c W Hc Hh E).
+  - cbn [negb]. cbn zeta. apply (pull_in_step_master_source s i c _ W Hc Hh E).
+    apply (eff_stop_back (graph s) (mbranch s) back W).
   - destruct (nth_error (cos s) j) as [cj|]; [|discriminate].
-    destruct (heavy cj) eqn:Hj; cbn [negb].
-    + destruct (update_revisions (graph s) (mbranch s) false (lbranch cj) None false) as [m'|e] eqn:U; [|discriminate].
-      destruct (ur_tip_congr (graph s) (mbranch s) (lbranch c) (lbranch cj) m' W (eq_sym E) U) as [l' [U' Hl']].
+    destruct (heavy cj) eqn:Hj; cbn [negb]; cbn zeta.
+    + destruct (update_revisions (graph s) (mbranch s) false (lbranch cj) _ false) as [m'|e] eqn:U; [|discriminate].
+      destruct (urs_tip_congr (graph s) (mbranch s) (lbranch c) (lbranch cj) _ m' W (eq_sym E) U) as [l' [U' Hl']].
       cbn [apply_write graph]. rewrite U'. cbn zeta.
       destruct (branch_eqb l' (lbranch c)); intros H; injection H as <-; cbn.
       * eexists. split; [apply nth_upd_same; exact Hc | exact Hl'].
       * eexists. split; [apply nth_upd_same; apply nth_upd_same; exact Hc | exact Hl'].
-    + apply (pull_in_step_master_source s i c W Hc Hh E).
+    + apply (pull_in_step_master_source s i c _ W Hc Hh E).
+      apply (eff_stop_back (graph s) (mbranch s) back W).
+Qed.
+
+(* pull -r from a third branch into an in-step bound checkout: master and local end on
+   the same tip, which is the old one or the REQUESTED revision (not the source's tip) *)
+Theorem pull_stop_both s i c j cj back s' :
+  wf_dag (graph s) = true ->
+  nth_error (cos s) i = Some c -> is_bound c = true ->
+  nth_error (cos s) j = Some cj -> heavy cj = true ->
+  tip (lbranch c) = tip (mbranch s) ->
+  pull s i (SCo j) back = (Done, s') ->
+  let e := eff_stop (lbranch cj) (stop_back (graph s) (lbranch cj) back) in
+  (tip (mbranch s') = tip (mbranch s) \/ tip (mbranch s') = e) /\
+  exists c', nth_error (cos s') i = Some c' /\ tip (lbranch c') = tip (mbranch s').
+Proof.
+  intros W Hc B Hj Hhj E P. split; [|apply (pull_keeps_in_step s i c (SCo j) back s' W Hc B E P)].
+  assert (Hh : heavy c = true) by (unfold is_bound in B; apply andb_true_iff in B; tauto).
+  revert P. unfold pull. rewrite Hc, B, Hj. cbn [andb]. unfold wbranch, branch_of. rewrite Hh, Hhj.
+  cbn [negb]. cbn zeta.
+  destruct (update_revisions (graph s) (mbranch s) false (lbranch cj) _ false) as [m'|e] eqn:U; [|discriminate].
+  assert (Hm' : tip m' = tip (mbranch s) \/
+                tip m' = eff_stop (lbranch cj) (stop_back (graph s) (lbranch cj) back)).
+  { destruct (urs_ok _ _ _ _ _ W U) as [[-> _]|[X _]]; [left; reflexivity | right; exact X]. }
+  cbn [apply_write graph].
+  destruct (update_revisions (graph s) (lbranch c) false (lbranch cj) _ false) as [l'|e]; [|discriminate].
+  cbn zeta. destruct (branch_eqb l' (lbranch c)); intros H; injection H as <-; cbn; exact Hm'.
 Qed.
 
 (* ---- reachable states: well-formedness ------------------------------------------------ *)
@@ -804,11 +964,29 @@ Proof.
   intros t Hx. cbn in Hx. injection Hx as <-. apply Hs. exact E.
 Qed.
 
-Lemma ur_tip_lt n g tgt src l' : wf_dag g = true -> tip_lt n tgt -> tip_lt n src ->
-  update_revisions g tgt false src None false = Ok l' -> tip_lt n l'.
+(* in a graph without ghosts every ancestor of a present revision is present *)
+Lemma reach_closed_lt g a b : closed g -> reach g a b -> b < length g -> a < length g.
 Proof.
-  intros W Ht Hs U. destruct (ur_ok g tgt src l' W U) as [[-> _]|[-> _]]; [exact Ht|].
-  intros t Hx. cbn in Hx. apply Hs. exact Hx.
+  intros C R. induction R as [r | a p r Hp Rap IH]; intros L; [exact L|].
+  apply IH. apply (C (parents g r) p); [|exact Hp].
+  unfold parents. apply nth_In. exact L.
+Qed.
+
+Lemma eff_stop_back_lt g sb back : wf_dag g = true -> closed g -> tip_lt (length g) sb ->
+  forall x, eff_stop sb (stop_back g sb back) = Some x -> x < length g.
+Proof.
+  intros W C Hs x Hx. destruct (eff_stop_back g sb back W) as [L N].
+  rewrite Hx in L. destruct (tip sb) as [t|] eqn:Ht; [|specialize (N eq_refl); congruence].
+  unfold leo in L. cbn in L. apply (is_ancestor_spec g x t W) in L.
+  apply (reach_closed_lt g x t C L). apply Hs. exact Ht.
+Qed.
+
+Lemma urs_tip_lt g tgt sb back l' : wf_dag g = true -> closed g ->
+  tip_lt (length g) tgt -> tip_lt (length g) sb ->
+  update_revisions g tgt false sb (stop_back g sb back) false = Ok l' -> tip_lt (length g) l'.
+Proof.
+  intros W C Ht Hs U. destruct (urs_ok g tgt sb _ l' W U) as [[-> _]|[E _]]; [exact Ht|].
+  intros t Hx. rewrite E in Hx. apply (eff_stop_back_lt g sb back W C Hs t Hx).
 Qed.
 
 Lemma good_update s i : good s -> good (snd (update s i)).
@@ -832,7 +1010,7 @@ Proof.
     unfold branch_of in H. destruct (heavy c); [apply Hl | apply M]; exact H.
 Qed.
 
-Lemma good_pull s i sr : good s -> good (snd (pull s i sr)).
+Lemma good_pull s i sr back : good s -> good (snd (pull s i sr back)).
 Proof.
   intros G. pose proof G as [W [C [M F]]]. unfold pull.
   destruct (nth_error (cos s) i) as [c|] eqn:Hc; [|exact G].
@@ -844,21 +1022,21 @@ Proof.
     - destruct (nth_error (cos s) j) as [cj|] eqn:Hj; [|discriminate]. injection H as <- _.
       unfold branch_of. destruct (heavy cj); [|exact M]. apply (Forall_nth _ _ _ _ F Hj). }
   destruct source as [[sb sim]|]; [|exact G].
-  specialize (Hsrc sb sim eq_refl).
+  specialize (Hsrc sb sim eq_refl). cbn zeta.
   set (am := if is_bound c && negb sim then _ else _).
   assert (Ham : forall s1, am = inr s1 -> good s1 /\ graph s1 = graph s /\ tip_lt (length (graph s)) (branch_of s1 c)).
   { subst am. intros s1. destruct (is_bound c && negb sim).
-    - destruct (update_revisions (graph s) (mbranch s) false sb None false) as [m'|e] eqn:U; [|discriminate].
+    - destruct (update_revisions (graph s) (mbranch s) false sb _ false) as [m'|e] eqn:U; [|discriminate].
       intros H; injection H as <-.
-      pose proof (ur_tip_lt _ _ _ _ _ W M Hsrc U) as Hm'.
+      pose proof (urs_tip_lt _ _ _ _ _ W C M Hsrc U) as Hm'.
       split; [exact (good_write s (WMaster m') G Hm')|]. split; [reflexivity|].
       unfold branch_of. destruct (heavy c); [exact Hl | exact Hm'].
     - intros H; injection H as <-. split; [exact G|]. split; [reflexivity|].
       unfold branch_of. destruct (heavy c); [exact Hl | exact M]. }
   destruct am as [e|s1]; [exact G|].
   destruct (Ham s1 eq_refl) as [G1 [Eg Hold]].
-  destruct (update_revisions (graph s) (branch_of s1 c) false sb None false) as [l'|e] eqn:U; [|exact G1].
-  pose proof (ur_tip_lt _ _ _ _ _ W Hold Hsrc U) as Hl'.
+  destruct (update_revisions (graph s) (branch_of s1 c) false sb _ false) as [l'|e] eqn:U; [|exact G1].
+  pose proof (urs_tip_lt _ _ _ _ _ W C Hold Hsrc U) as Hl'.
   assert (G2 : good (apply_write s1 (wbranch i c l'))).
   { apply good_write; [exact G1|]. rewrite Eg. unfold wbranch. destruct (heavy c); exact Hl'. }
   destruct (branch_eqb l' (branch_of s1 c)); cbn [snd]; [exact G2|].
@@ -1010,7 +1188,7 @@ Proof.
   - destruct (update_tree_parents _ _ _ _); cbn [snd]; [apply behind_wtree; exact B | exact B].
 Qed.
 
-Lemma behind_pull s i sr : good s -> behind s -> behind (snd (pull s i sr)).
+Lemma behind_pull s i sr back : good s -> behind s -> behind (snd (pull s i sr back)).
 Proof.
   intros G B. pose proof G as [W [C [M F]]]. unfold pull.
   destruct (nth_error (cos s) i) as [c|] eqn:Hc; [|exact B].
@@ -1025,41 +1203,44 @@ Proof.
       + split; [|discriminate]. destruct (Forall_nth _ _ _ _ B Hj Hhj) as [_ X]. exact X.
       + split; [apply leo_refl; exact W | reflexivity]. }
   destruct source as [[sb sim]|]; [|exact B].
-  destruct (Hsrc sb sim eq_refl) as [Ls Hsim].
+  destruct (Hsrc sb sim eq_refl) as [Ls Hsim]. cbn zeta.
+  (* the requested revision is on the source's history, hence in the master's ancestry too *)
+  set (stop := stop_back (graph s) sb back).
+  assert (Le : leo (graph s) (eff_stop sb stop) (tip (mbranch s))).
+  { eapply leo_trans; [exact W | apply (eff_stop_back (graph s) sb back W) | exact Ls]. }
   destruct (heavy c) eqn:Hh.
   - (* heavyweight target: by the invariant it is bound *)
     destruct (Forall_nth _ _ _ _ B Hc Hh) as [Hb Ll].
     unfold is_bound, wbranch, branch_of. rewrite Hh, Hb. cbn [andb].
     destruct sim; cbn [negb].
-    + (* from the master: only the local branch moves, to the master's tip or not at all *)
-      rewrite (Hsim eq_refl).
-      destruct (update_revisions (graph s) (lbranch c) false (mbranch s) None false) as [l'|e] eqn:U; [|exact B].
+    + (* from the master: only the local branch moves, to the requested revision or not at all *)
+      destruct (update_revisions (graph s) (lbranch c) false sb stop false) as [l'|e] eqn:U; [|exact B].
       assert (B1 : behind (apply_write s (WLocal i l'))).
       { apply behind_wlocal; [exact B|].
-        destruct (ur_ok _ _ _ _ W U) as [[-> _]|[-> _]]; [exact Ll | apply leo_refl; exact W]. }
+        destruct (urs_ok _ _ _ _ _ W U) as [[-> _]|[E _]]; [exact Ll | rewrite E; exact Le]. }
       destruct (branch_eqb l' (lbranch c)); cbn [snd]; [exact B1 | apply behind_wtree; exact B1].
     + (* from another checkout: the master first *)
-      destruct (update_revisions (graph s) (mbranch s) false sb None false) as [m'|e] eqn:Um; [|exact B].
-      assert (Lm : leo (graph s) (tip (mbranch s)) (tip m') /\ leo (graph s) (tip sb) (tip m')).
-      { destruct (ur_ok _ _ _ _ W Um) as [[-> X]|[-> [_ X]]].
+      destruct (update_revisions (graph s) (mbranch s) false sb stop false) as [m'|e] eqn:Um; [|exact B].
+      assert (Lm : leo (graph s) (tip (mbranch s)) (tip m') /\ leo (graph s) (eff_stop sb stop) (tip m')).
+      { destruct (urs_ok _ _ _ _ _ W Um) as [[-> X]|[E [_ X]]].
         - split; [apply leo_refl; exact W | exact X].
-        - cbn [tip]. split; [exact X | apply leo_refl; exact W]. }
+        - rewrite E. split; [exact X | apply leo_refl; exact W]. }
       destruct Lm as [Lm Lsm].
       pose proof (behind_wmaster s m' W B Lm) as B1.
       cbn [apply_write graph].
-      destruct (update_revisions (graph s) (lbranch c) false sb None false) as [l'|e] eqn:U; [|exact B1].
+      destruct (update_revisions (graph s) (lbranch c) false sb stop false) as [l'|e] eqn:U; [|exact B1].
       assert (B2 : behind (apply_write (apply_write s (WMaster m')) (WLocal i l'))).
       { apply behind_wlocal; [exact B1|]. cbn [apply_write graph mbranch].
-        destruct (ur_ok _ _ _ _ W U) as [[-> _]|[-> _]].
+        destruct (urs_ok _ _ _ _ _ W U) as [[-> _]|[E _]].
         - eapply leo_trans; [exact W | exact Ll | exact Lm].
-        - exact Lsm. }
+        - rewrite E. exact Lsm. }
       destruct (branch_eqb l' (lbranch c)); cbn [snd]; [exact B2 | apply behind_wtree; exact B2].
   - (* lightweight target: the master itself is pulled into *)
     unfold is_bound, wbranch, branch_of. rewrite Hh. cbn [andb].
-    destruct (update_revisions (graph s) (mbranch s) false sb None false) as [l'|e] eqn:U; [|exact B].
+    destruct (update_revisions (graph s) (mbranch s) false sb stop false) as [l'|e] eqn:U; [|exact B].
     assert (B1 : behind (apply_write s (WMaster l'))).
     { apply behind_wmaster; [exact W | exact B|].
-      destruct (ur_ok _ _ _ _ W U) as [[-> _]|[-> [_ X]]]; [apply leo_refl; exact W | exact X]. }
+      destruct (urs_ok _ _ _ _ _ W U) as [[-> _]|[E [_ X]]]; [apply leo_refl; exact W | rewrite E; exact X]. }
     destruct (branch_eqb l' (mbranch s)); cbn [snd]; [exact B1 | apply behind_wtree; exact B1].
 Qed.
 
@@ -1072,7 +1253,7 @@ Qed.
 
 Lemma behind_step s o : good s -> behind s -> nolocal o = true -> behind (snd (step s o)).
 Proof.
-  intros G B N. destruct o as [i loc f|i|i sr|i|i]; cbn [step nolocal] in *.
+  intros G B N. destruct o as [i loc f|i|i sr back|i|i]; cbn [step nolocal] in *.
   - destruct loc; [discriminate|]. apply behind_commit; assumption.
   - apply behind_update; assumption.
   - apply behind_pull; assumption.
